@@ -42,6 +42,10 @@ func main() {
 				continue
 			}
 			switch ws[0] {
+			case "ntree":
+				if section == "" || section == "interp" {
+					replayNTree(o, repo, ws)
+				}
 			case "dump", "tree":
 				if section == "" || section == "interp" {
 					replayDump(o, r, repo, ws)
@@ -83,6 +87,12 @@ func main() {
 		genBinaries(o, r, nBin)
 		genSynth(o, r, nSynth, budget)
 		genTrees(o, r, repo, nFiles, budget)
+		nNest, nBig := 40, 30
+		if th {
+			nNest, nBig = 400, 300
+		}
+		genNested(o, r, repo, nNest, th)
+		genBigV(o, r, nBig)
 		genJSON(o, r, th)
 	}
 }
